@@ -39,6 +39,71 @@ Theorem C09_start_outcome : forall st,
   /\ (first_failing st (rev (pubdecs st)) = None -> first_failing st (subdecs st) = None ->
       handlers (step st OStart) = map (start_one st) (handlers st)).
 Proof. exact start_outcome. Qed.
+(** a RunHandlers attempt that fails leaves NOTHING behind (repaired code): no publisher decorator stays
+    applied, so after any number of failed attempts a handler is decorated once, with the lists of the
+    moment it is started *)
+Theorem C09_retry_leaves_no_residue : forall ops, residue (exec rinit ops) = [].
+Proof. exact residue_empty_all. Qed.
+Theorem C09_retry_decorates_once : forall ops hs, hs_started hs = None -> waiting (exec rinit ops) hs = true ->
+  start_one (exec rinit ops) hs =
+  HS (hs_cfg hs) (Some (ST (mws (exec rinit ops)) (pubdecs (exec rinit ops)) (subdecs (exec rinit ops)))).
+Proof. exact start_one_no_residue. Qed.
+(** PINNED behaviour (before the fix): an attempt that failed in a subscriber decorator left the publisher
+    decorated; after the retry publisher decorator 50 acts twice on one outgoing batch *)
+Theorem C09_retry_pinned_refuted :
+  let d := DL 1 22 cx0 (0%N, false) (Ret [1%N]) PubAccept in
+  map (fun p => c09_proj (snd p)) (deliver (exec_pinned rinit pinned_witness) d)
+    = [[OSub 62 (CX 12 8 7 22 33); OFn; OPubDec 50; OPubDec 50; OPub]]
+  /\ map (fun p => c09_proj (snd p)) (deliver (exec rinit pinned_witness) d)
+    = [[OSub 62 (CX 12 8 7 22 33); OFn; OPubDec 50; OPub]].
+Proof. exact retry_pinned_refuted. Qed.
+(** THE LINEARISATION POINT of a handler's start with respect to middleware registrations.  RunHandlers
+    returns before the new handler's goroutine copies r.middlewares ([OStartAsync]); the copy
+    ([OSnap n]: middlewares := append([]middleware{}, r.middlewares...) under middlewaresLock, the lock
+    Handler.AddMiddleware and — since the fix — Router.AddMiddleware take) is the point P:
+    a middleware registered before P of handler n's start is in n's chain (also when it was registered
+    after RunHandlers returned), one registered after P is not; the decorator lists are those of the
+    RunHandlers call.  [mid] and [post] are arbitrary programs (other starts, stops, failing attempts...). *)
+Theorem C09_snapshot_linearisation : forall mid st n h decs post,
+  pending_of st n = Some decs -> find_handler n st = Some (HS h None) ->
+  Forall (fun o => o <> OSnap n) mid -> Forall (fun o => o <> OStop n) post ->
+  find_handler n (exec st (mid ++ OSnap n :: post)) =
+  Some (HS h (Some (ST (mws st ++ regs_of mid) (fst decs) (snd decs)))).
+Proof. exact snapshot_linearisation. Qed.
+(** a RunHandlers in which no constructor fails leaves every waiting handler in that pending state *)
+Theorem C09_async_start_pending : forall st hs,
+  NoDup (names st) -> In hs (handlers st) -> waiting st hs = true ->
+  first_failing st (rev (pubdecs st)) = None -> first_failing st (subdecs st) = None ->
+  pending_of (step st OStartAsync) (hname hs) = Some (frozen_decs st hs)
+  /\ find_handler (hname hs) (step st OStartAsync) = Some hs
+  /\ mws (step st OStartAsync) = mws st.
+Proof. exact async_start_pending. Qed.
+(** the [OStart] of the sequential programs is the special case "the copy follows at once" *)
+Theorem C09_start_is_async_then_snap : forall st hs,
+  NoDup (names st) -> In hs (handlers st) -> waiting st hs = true ->
+  first_failing st (rev (pubdecs st)) = None -> first_failing st (subdecs st) = None ->
+  find_handler (hname hs) (step (step st OStartAsync) (OSnap (hname hs))) = find_handler (hname hs) (step st OStart).
+Proof. exact start_is_async_then_snap. Qed.
+(** For ALL programs (Stop, re-added names, failing constructors, asynchronous starts): the handler the
+    Router holds under a name was added by an AddHandler of the program, and what it froze is declarative:
+    its middleware snapshot is [regs_of pre1] for a prefix [pre1] of the program that is followed by a
+    Run/RunHandlers or by its own copy op, its decorator lists are those of a prefix [pre0] <= [pre1] that is
+    followed by a Run/RunHandlers.
+    _partial: WHICH start it is (the first one in which no constructor fails after the AddHandler that
+    follows the last Stop of the name) is not given by a closed scan function for programs with Stop /
+    failing constructors — it is the registration machine's (C09_start_outcome, C09_started_frozen,
+    C09_snapshot_linearisation); for plain programs the scan reading is C09_started_freezes_registrations. *)
+Theorem C09_started_holds_prefix_partial : forall ops n h s,
+  find_handler n (exec rinit ops) = Some (HS h (Some s)) ->
+  In (OAddHandler h) ops /\
+  exists pre0 o0 pre1 o1, is_prefix pre0 pre1 /\ is_prefix (pre0 ++ [o0]) ops /\ is_prefix (pre1 ++ [o1]) ops
+    /\ (o0 = OStart \/ o0 = OStartAsync) /\ (o1 = OStart \/ o1 = OSnap (h_name h))
+    /\ s_chain s = regs_of pre1 /\ s_pubdecs s = pdecs_of pre0 /\ s_subdecs s = sdecs_of pre0.
+Proof. exact started_holds_prefix. Qed.
+(** the Router's decorator lists are, for all programs, all decorator registrations in order *)
+Theorem C09_decorator_lists_all : forall ops,
+  pubdecs (exec rinit ops) = pdecs_of ops /\ subdecs (exec rinit ops) = sdecs_of ops.
+Proof. exact decorators_all. Qed.
 Theorem C09_names_unique : forall ops, NoDup (names (exec rinit ops)).
 Proof. exact names_nodup_all. Qed.
 
@@ -101,6 +166,14 @@ Print Assumptions C09_registrations_never_removed.
 Print Assumptions C09_started_frozen.
 Print Assumptions C09_start_outcome.
 Print Assumptions C09_names_unique.
+Print Assumptions C09_started_holds_prefix_partial.
+Print Assumptions C09_decorator_lists_all.
+Print Assumptions C09_snapshot_linearisation.
+Print Assumptions C09_async_start_pending.
+Print Assumptions C09_start_is_async_then_snap.
+Print Assumptions C09_retry_leaves_no_residue.
+Print Assumptions C09_retry_decorates_once.
+Print Assumptions C09_retry_pinned_refuted.
 
 (** non-vacuity: router-level 1, handler A (name 10), A's own 2, handler B (name 11), router-level 3
     (after both AddHandler calls: applies to both), B's own 4, decorators, Run, then registrations
@@ -126,8 +199,8 @@ Example C09_witness_late_handler :
 Proof. reflexivity. Qed.
 
 (** a handler added to the running router; publisher decorator 53's constructor fails once, subscriber
-    decorator 62's fails once: the first two RunHandlers start nobody (the second leaves the publisher
-    decorators applied on the handler's publisher: they act twice afterwards, as coded), the third starts it *)
+    decorator 62's fails once: the first two RunHandlers start nobody, the third starts it, and every
+    decorator acts ONCE (repaired: the undecorated publisher is put back when the subscriber cannot be decorated) *)
 Definition exRetry := exOps ++ [OAddPubDec 53 1; OAddSubDec 62 1; OAddHandler (HC 12 1 7 22 (PReal 1 8) 33 3)].
 Example C09_witness_failing_constructors :
   map (fun ops => map (fun p => c09_proj (snd p)) (deliver (exec rinit ops) (DL 1 22 cx0 (0%N, false) (Ret [1%N]) PubAccept)))
@@ -135,7 +208,7 @@ Example C09_witness_failing_constructors :
   [[]; [];
    [[OSub 60 (CX 12 8 7 22 33); OSub 61 (CX 12 8 7 22 33); OSub 62 (CX 12 8 7 22 33);
      OEnter 1; OEnter 3; OEnter 5; OFn; OExit 5; OExit 3; OExit 1;
-     OPubDec 50; OPubDec 51; OPubDec 52; OPubDec 53; OPubDec 50; OPubDec 51; OPubDec 52; OPubDec 53; OPub]]].
+     OPubDec 50; OPubDec 51; OPubDec 52; OPubDec 53; OPub]]].
 Proof. reflexivity. Qed.
 (** Stop of A, then a new handler under A's name: it inherits A's middleware 2 and the late 6 *)
 Example C09_witness_stop_and_readd :
@@ -144,4 +217,15 @@ Example C09_witness_stop_and_readd :
                (DL 1 23 cx0 (0%N, false) (Ret []) PubAccept)) =
   [[OSub 60 (CX 10 ty_nil 7 23 0); OSub 61 (CX 10 ty_nil 7 23 0);
     OEnter 1; OEnter 2; OEnter 3; OEnter 5; OEnter 6; OEnter 7; OFn; OExit 7; OExit 6; OExit 5; OExit 3; OExit 2; OExit 1]].
+Proof. reflexivity. Qed.
+
+(** registrations in the window between RunHandlers' return and the goroutine's copy: router-level 8 and
+    A's own 9 are registered after the (asynchronous) start and before the copy: both in A's chain;
+    decorator 54 registered in the window is NOT applied (frozen by RunHandlers); 10 after the copy: not in. *)
+Example C09_witness_window :
+  map (fun p => c09_proj (snd p))
+      (deliver (exec rinit [OAddHandler exA; OAddMw 1 None; OAddPubDec 50 0; OStartAsync;
+                            OAddMw 8 None; OAddHMw 10 9 None; OAddPubDec 54 0; OSnap 10; OAddMw 10 None])
+               (DL 1 20 cx0 (0%N, false) (Ret [1%N]) PubAccept)) =
+  [[OEnter 1; OEnter 8; OEnter 9; OFn; OExit 9; OExit 8; OExit 1; OPubDec 50; OPub]].
 Proof. reflexivity. Qed.
